@@ -835,6 +835,19 @@ mut("c16-originend-slow-branch", "C16", "seqio/genbank_subparsers.go", "\t\t\tgb
 mut("c13-key10-seekable-stdin", "C13", "cmd/gts/io.go", "\tif d.infile == os.Stdin {\n", "\tif d.infile == os.Stdin && !seekable(os.Stdin) {\n", ["KEY-10|main.ioDelegate.TryCache|hash"],
     old2="func (d *ioDelegate) TryCache(", new2="func seekable(f *os.File) bool {\n\t_, err := f.Seek(0, io.SeekCurrent)\n\treturn err == nil\n}\n\nfunc (d *ioDelegate) TryCache(")
 
+# ---------------------------------------------------------------- refactoring round 4
+mut("c15-backfront-silent-sortslice-desc", "C15", "cmd/gts/infix.go", "\t\t\tsort.Sort(sort.Reverse(sort.IntSlice(indices)))\n", "\t\t\tsort.Slice(indices, func(a, b int) bool { return indices[a] > indices[b] })\n", silent=True)
+mut("c15-backfront-sortslice-asc", "C15", "cmd/gts/infix.go", "\t\t\tsort.Sort(sort.Reverse(sort.IntSlice(indices)))\n", "\t\t\tsort.Slice(indices, func(a, b int) bool { return indices[a] < indices[b] })\n", ["BACK-TO-FRONT|main.infixFunc|edit-loop#1"])
+mut("c14-maporder-silent-locals", "C14", "cmd/gts/summary.go", "\treturn pp[i].Key < pp[j].Key\n", "\ta, b := pp[i], pp[j]\n\treturn a.Key < b.Key\n", silent=True)
+mut("c14-maporder-locals-caseless", "C14", "cmd/gts/summary.go", "\treturn pp[i].Key < pp[j].Key\n", "\ta, b := pp[i], pp[j]\n\treturn strings.ToLower(a.Key) < strings.ToLower(b.Key)\n", ["MAP-ORDER|main.summaryFunc|map-range#1(keys)"])
+mut("c16-originparsed-silent-return-local", "C16", "seqio/origin.go", "func (o *Origin) Bytes() []byte {\n\tif !o.Parsed {", "func (o *Origin) Bytes() []byte {\n\tif o.Parsed {\n\t\treturn o.Buffer\n\t}\n\tif !o.Parsed {", silent=True,
+    old2="\t\to.Buffer = q\n\t\to.Parsed = true\n\t}\n", new2="\t\to.Buffer = q\n\t\to.Parsed = true\n\t\treturn q\n\t}\n")
+mut("c17-stateless-silent-separator-var", "C17", "seqio/fasta.go", "\tlines := bytes.Split(body, []byte{'\\n'})\n", "\t\tlines := bytes.Split(body, fastaLineFeed)\n", silent=True,
+    old2="// FastaParser attempts to parse a single FASTA file entry.\n", new2="var fastaLineFeed = []byte{'\\n'}\n\n// FastaParser attempts to parse a single FASTA file entry.\n")
+mut("c17-stateless-separator-var-written", "C17", "seqio/fasta.go", "\tlines := bytes.Split(body, []byte{'\\n'})\n", "\t\tfastaLineFeed[0] = '\\n'\n\t\tlines := bytes.Split(body, fastaLineFeed)\n", ["STATELESS|gts/seqio.FastaParser$1|fastaLineFeed"],
+    old2="// FastaParser attempts to parse a single FASTA file entry.\n", new2="var fastaLineFeed = []byte{'\\n'}\n\n// FastaParser attempts to parse a single FASTA file entry.\n")
+mut("c07-reqerr-silent-loop-condition", "C07", "seqio/scanner.go", "\tfor n := 1; ; n *= 2 {\n\t\tif err := s.s.Request(n); err != nil {\n\t\t\t// Everything that is left of the input is in the buffer now.\n\t\t\treturn len(bytes.TrimSpace(s.s.Buffer())) == 0\n\t\t}\n\t\tif len(bytes.TrimSpace(s.s.Buffer())) != 0 {\n\t\t\treturn false\n\t\t}\n\t}\n", "\tfor n := 1; s.s.Request(n) == nil; n *= 2 {\n\t\tif len(bytes.TrimSpace(s.s.Buffer())) != 0 {\n\t\t\treturn false\n\t\t}\n\t}\n\treturn len(bytes.TrimSpace(s.s.Buffer())) == 0\n", silent=True)
+
 if __name__ == "__main__":
     here = os.path.dirname(os.path.abspath(__file__))
     ids = [m["id"] for m in M]
